@@ -185,6 +185,7 @@ fn alphabet_f() -> Vec<Op> {
         a(K::Backfill(0)),
         a(K::Backfill(255)),
         a(K::BackfillWrongSize(0)),
+        a(K::BackfillSame(0)),
         a(K::Consume(255)),
         a(K::Advance(65535)),
         a(K::FlushCache),
@@ -286,6 +287,9 @@ struct Explorer<'a> {
     label: String,
     key_prefix: &'static str,
     stopped: bool,
+    /// every second op (the odd steps) is applied on a freshly spawned helper thread: the objects
+    /// move between threads (they are Send), the way a pipeline hands buffers from stage to stage
+    threaded: bool,
 }
 
 impl Explorer<'_> {
@@ -296,14 +300,15 @@ impl Explorer<'_> {
         let mut meta = (0u64, 0u64, false);
         let alphabet = &self.alphabet;
         let start = self.start;
-        set_breadcrumb(format!("start: {}\nhistory: {}\n", start.name(), render(&full)).as_bytes());
+        let threaded = self.threaded;
+        set_breadcrumb(format!("start: {}\nthreads: {}\nhistory: {}\n", start.name(), if threaded { "alternate" } else { "one" }, render(&full)).as_bytes());
         let body = || -> Result<(), String> {
             let mut ex = Exec::new(start);
             for (i, op) in full.iter().enumerate() {
                 if !ex.enabled(*op) {
                     return Err(format!("step {} ({}) is not enabled (harness bug)", i + 1, op.name()));
                 }
-                ex.apply(*op).map_err(|e| format!("step {} ({}): {}", i + 1, op.name(), e))?;
+                apply_maybe_threaded(&mut ex, *op, threaded && i % 2 == 1).map_err(|e| format!("step {} ({}): {}", i + 1, op.name(), e))?;
             }
             ex.oracle().map_err(|e| format!("after the last step: {}", e))?;
             enabled = alphabet.iter().copied().filter(|o| ex.enabled(*o)).collect();
@@ -345,7 +350,7 @@ impl Explorer<'_> {
             Err(e) => {
                 if judged {
                     // must reproduce, twice, with the same description
-                    let again = run_history(self.start, &full, false);
+                    let again = if self.threaded { run_history_threaded(self.start, &full) } else { run_history(self.start, &full, false) };
                     if again.as_ref().err() != Some(&e) {
                         machinery_failure(&format!("violation did not reproduce identically: [{}] first: {} / replay: {:?}", render(&full), e, again));
                     }
@@ -353,7 +358,7 @@ impl Explorer<'_> {
                     self.rep.violation(Violation {
                         key: format!("{}:{}:{}", self.key_prefix, self.start.name(), hist.replace(' ', "")),
                         summary: format!("OwningIovec [{}] {}: {}", self.start.name(), hist, e),
-                        replay_text: format!("start: {}\nhistory: {}\nobserved: {}\n", self.start.name(), hist, e),
+                        replay_text: format!("start: {}\nthreads: {}\nhistory: {}\nobserved: {}\n", self.start.name(), if self.threaded { "alternate" } else { "one" }, hist, e),
                     });
                 }
                 None
@@ -403,11 +408,55 @@ impl Explorer<'_> {
 
 fn explore(ctx: &Ctx, rep: &mut Report, key_prefix: &'static str, label: &str, alphabet: Vec<Op>, start: Start, prefix: Vec<Op>, depth: usize) {
     let n = alphabet.len();
-    let mut ex = Explorer { ctx, rep, alphabet, start, prefix, max_depth: depth, unit: 0, label: label.to_string(), key_prefix, stopped: false };
+    explore_mode(ctx, rep, key_prefix, label, alphabet, start, prefix, depth, false);
+    let _ = n;
+}
+
+fn explore_mode(ctx: &Ctx, rep: &mut Report, key_prefix: &'static str, label: &str, alphabet: Vec<Op>, start: Start, prefix: Vec<Op>, depth: usize, threaded: bool) {
+    let n = alphabet.len();
+    let mut ex = Explorer { ctx, rep, alphabet, start, prefix, max_depth: depth, unit: 0, label: label.to_string(), key_prefix, stopped: false, threaded };
     let mut path = Vec::new();
     ex.dfs(&mut path, false);
     let stopped = ex.stopped;
-    rep.note(format!("{}: all histories over {} ops to depth {} from start '{}'{}", label, n, depth, start.name(), if stopped { " (INCOMPLETE: wall cap)" } else { "" }));
+    rep.note(format!("{}: all histories over {} ops to depth {} from start '{}'{}{}", label, n, depth, start.name(), if threaded { ", every second op applied on a freshly spawned helper thread (the objects move between threads)" } else { "" }, if stopped { " (INCOMPLETE: wall cap)" } else { "" }));
+}
+
+/// Applies `op` here, or on a fresh helper thread that is joined before the next op.
+fn apply_maybe_threaded(ex: &mut Exec, op: Op, on_helper: bool) -> Result<(), String> {
+    if !on_helper {
+        return ex.apply(op);
+    }
+    std::thread::scope(|s| {
+        let h = s.spawn(|| match catch(|| ex.apply(op)) {
+            Ok(r) => r,
+            Err(p) => Err(format!("panic (on the helper thread): {}", p)),
+        });
+        match h.join() {
+            Ok(r) => r,
+            Err(_) => Err("the helper thread died".to_string()),
+        }
+    })
+}
+
+/// Replays a history with the odd steps on helper threads.
+fn run_history_threaded(start: Start, path: &[Op]) -> Result<(), String> {
+    let body = || -> Result<(), String> {
+        let mut ex = Exec::new(start);
+        for (i, op) in path.iter().enumerate() {
+            if !ex.enabled(*op) {
+                return Err(format!("step {} ({}) is not enabled (harness bug or changed enabledness)", i + 1, op.name()));
+            }
+            apply_maybe_threaded(&mut ex, *op, i % 2 == 1).map_err(|e| format!("step {} ({}): {}", i + 1, op.name(), e))?;
+        }
+        ex.oracle().map_err(|e| format!("after the last step: {}", e))?;
+        ex.finish(path.len() % 2 == 1).map_err(|e| format!("at the end: {}", e))
+    };
+    let r = match catch(body) {
+        Ok(r) => r,
+        Err(p) => Err(format!("panic: {}", p)),
+    };
+    owning_iovec::verif::drain_quarantine();
+    r
 }
 
 /// Periodic unrollings: every cycle of 1..=max_len ops over the alphabet, repeated `reps` times (an op
@@ -600,6 +649,7 @@ fn explore_c20(ctx: &Ctx, rep: &mut Report, prefix_depth: usize, suffix_depth: u
                 label: format!("C20 {}", split.name()),
                 key_prefix: "C20",
                 stopped: false,
+                threaded: false,
             };
             let mut path = Vec::new();
             e.dfs(&mut path, false);
@@ -634,6 +684,8 @@ fn run(ctx: &Ctx) -> Report {
                 explore(ctx, &mut rep, "C03", &format!("C03 backpatch alphabet B after seed {}", name), alphabet_b(), Start::Fresh, seed, t.pick(4, 5));
             }
             explore(ctx, &mut rep, "C03", "C03 alphabet F (chunk end)", alphabet_f(), Start::Fresh, vec![], t.pick(6, 7));
+            explore_mode(ctx, &mut rep, "C03", "C03 alphabet A across threads", alphabet_a(), Start::Fresh, vec![], t.pick(3, 4), true);
+            explore_mode(ctx, &mut rep, "C03", "C03 reduced alphabet across threads", alphabet_a_small(), Start::Fresh, vec![], t.pick(4, 5), true);
             explore_cycles(ctx, &mut rep, "C03", "C03 cycles, alphabet A", alphabet_a(), Start::Fresh, vec![], t.pick(3, 3), t.pick(16, 40));
             explore_cycles(ctx, &mut rep, "C03", "C03 cycles, alphabet B", alphabet_b(), Start::Fresh, vec![], t.pick(3, 4), t.pick(16, 40));
             explore_cycles(ctx, &mut rep, "C03", "C03 cycles, reduced alphabet", alphabet_a_small(), Start::Fresh, vec![], t.pick(3, 4), t.pick(16, 40));
@@ -641,6 +693,9 @@ fn run(ctx: &Ctx) -> Report {
             // long pipes: well over a thousand slices buffered at once (limits such as IOV_MAX = 1024 live there)
             let many = vec![a(K::PushBorrowed(3)), a(K::Push(257)), a(K::PushCopy(3)), a(K::Register(1)), a(K::Backfill(0)), a(K::Consume(1)), a(K::Read(300)), a(K::PushAnchored(300))];
             explore_cycles_sparse(ctx, &mut rep, "C03", "C03 long unrollings (1100 repetitions)", many, Start::Fresh, vec![], 2, t.pick(1100, 2200), 275);
+            // marathons: the 65 536th occurrence of an event (narrow counters of slices, anchors, placeholders, bytes)
+            let marathon = vec![a(K::PushCopy(3)), a(K::PushBorrowed(3)), a(K::Register(1)), a(K::Backfill(0)), a(K::Consume(1)), a(K::Advance(1)), a(K::PushAnchored(70))];
+            explore_cycles_sparse(ctx, &mut rep, "C03", "C03 marathons (70 000 repetitions)", marathon, Start::Fresh, vec![], 2, 70_000, 17_500);
         }
         "C04" => {
             // the 16 single-pipe ops to the full depth; with the clone-while-pending op one level shallower
@@ -649,7 +704,7 @@ fn run(ctx: &Ctx) -> Report {
             explore(ctx, &mut rep, "C04", "C04 alphabet B + clone while pending", alphabet_b(), Start::Fresh, vec![], t.pick(6, 7));
             // the byte-stream views: Read::read and the provided Read methods an implementation may override
             let mut b_read: Vec<Op> = alphabet_b().into_iter().filter(|o| !matches!(o.k, K::ClonePending | K::Register(0) | K::Backfill(2) | K::Burn(4) | K::FlushCache)).collect();
-            b_read.extend([a(K::Read(2)), a(K::ReadToEnd), a(K::ReadVectored), a(K::ReadBytes(3))]);
+            b_read.extend([a(K::Read(2)), a(K::ReadToEnd), a(K::ReadVectored), a(K::ReadBytes(3)), a(K::BackfillSame(0))]);
             explore(ctx, &mut rep, "C04", "C04 alphabet B (reduced) + Read views", b_read.clone(), Start::Fresh, vec![], t.pick(6, 7));
             explore_cycles(ctx, &mut rep, "C04", "C04 cycles, alphabet B (reduced) + Read views", b_read, Start::Fresh, vec![], t.pick(3, 4), t.pick(16, 40));
             for (name, seed) in seeds() {
@@ -667,16 +722,21 @@ fn run(ctx: &Ctx) -> Report {
             explore(ctx, &mut rep, "C05", "C05 alphabet C (full)", alphabet_c(true), Start::Fresh, vec![], t.pick(4, 5));
             explore(ctx, &mut rep, "C05", "C05 alphabet E (anchored memory)", alphabet_e(), Start::Fresh, vec![], t.pick(7, 8));
             explore(ctx, &mut rep, "C05", "C05 alphabet E extended (short anchored slices, extend, anchor first)", alphabet_e_ext(), Start::Fresh, vec![], t.pick(5, 6));
+            explore_mode(ctx, &mut rep, "C05", "C05 alphabet C across threads", alphabet_c(false), Start::Fresh, vec![], t.pick(3, 4), true);
+            explore_mode(ctx, &mut rep, "C05", "C05 alphabet E extended across threads", alphabet_e_ext(), Start::Fresh, vec![], t.pick(4, 5), true);
             for (name, seed) in seeds() {
                 explore(ctx, &mut rep, "C05", &format!("C05 alphabet C after seed {}", name), alphabet_c(false), Start::Fresh, seed, t.pick(4, 5));
             }
             explore_cycles(ctx, &mut rep, "C05", "C05 cycles, alphabet C", alphabet_c(false), Start::Fresh, vec![], t.pick(3, 3), t.pick(16, 40));
             explore_cycles(ctx, &mut rep, "C05", "C05 cycles, alphabet E extended", alphabet_e_ext(), Start::Fresh, vec![], t.pick(3, 4), t.pick(16, 40));
+            let marathon = vec![a(K::PushAnchored(70)), a(K::PushCopy(3)), a(K::Consume(1)), a(K::Advance(66)), a(K::FlushCache), a(K::HoldRead(70)), a(K::HeldPush)];
+            explore_cycles_sparse(ctx, &mut rep, "C05", "C05 marathons (70 000 repetitions)", marathon, Start::Fresh, vec![], 2, 70_000, 17_500);
         }
         "C10" => {
             explore(ctx, &mut rep, "C10", "C10 leak clause, alphabet C", alphabet_c(false), Start::Fresh, vec![], t.pick(4, 6));
             explore(ctx, &mut rep, "C10", "C10 leak clause, alphabet C", alphabet_c(false), Start::FromSlices, vec![], t.pick(3, 5));
             explore(ctx, &mut rep, "C10", "C10 leak clause, alphabet E (anchored memory)", alphabet_e(), Start::Fresh, vec![], t.pick(6, 7));
+            explore_mode(ctx, &mut rep, "C10", "C10 leak clause, alphabet C across threads", alphabet_c(false), Start::Fresh, vec![], t.pick(3, 4), true);
             for (name, seed) in seeds() {
                 explore(ctx, &mut rep, "C10", &format!("C10 leak clause after seed {}", name), alphabet_c(false), Start::Fresh, seed, t.pick(3, 5));
             }
@@ -709,7 +769,8 @@ fn replay(ctx: &Ctx, text: &str) -> Result<String, String> {
     let Some(path) = field(text, "history").and_then(parse_path) else {
         machinery_failure("cannot parse history");
     };
-    match run_history(start, &path, true) {
+    let r = if field(text, "threads") == Some("alternate") { run_history_threaded(start, &path) } else { run_history(start, &path, true) };
+    match r {
         Err(e) if !relevant(&e) => Err(format!("[{}] only a sibling property's oracle fails: {}", render(&path), e)),
         Err(e) => Ok(format!("[{}] {}", render(&path), e)),
         Ok(()) => Err(format!("[{}] agrees with the reference pipe, nothing dangling, nothing leaked", render(&path))),
